@@ -6,7 +6,7 @@
    table_wfb_sound), C06's sort.Search lemma (Lsm/PickBase.v sort_search_spec), C01 (LsmProofs.v). *)
 From GL Require Import Base.Bytes Base.BytesProofs Base.Order Base.OrderProofs Codec.IKey Codec.IKeyProofs
   Codec.Table Codec.TableProofs Codec.TableCheck Lsm.Lsm Lsm.Compact Lsm.LsmProofs Lsm.WfProofs Lsm.Pick Lsm.PickBase
-  Lsm.ReadPath Lsm.ReadPathKey Lsm.ReadPathMem Lsm.ReadPathTable.
+  Lsm.ReadPath Lsm.ReadPathKey Lsm.ReadPathMem Lsm.ReadPathTable Lsm.History Lsm.HistoryProofs.
 From GL Require Mem.MemDB.
 From Coq Require Import Arith Lia.
 Open Scope N_scope.
@@ -375,6 +375,27 @@ Section Compose.
       intros H. rewrite (read_path_refines st H). f_equal. apply (get_correct c ok p pok). apply (wb_abs st H).
     Qed.
   End Probe.
+
+  (* ... and against the plain map: if the buffers and table files hold exactly the stored collection of an
+     admissible history (writes, snapshots, admissible reorganisations), a read at the history's current
+     sequence number, computed on the bytes, is the plain map's answer; at any protected sequence number it
+     is the answer judged on everything ever written *)
+  Theorem get_is_map_bytes st ops k : wf_bstate st -> wf_bytes k ->
+    hops_ok c p h_init ops -> h_store (hrun ops) = all_entries (absS st) -> h_seq (hrun ops) <= keyMaxSeq p ->
+    bapi (db_get_bytes c p mp tp crc decompress fname ufc verify st k (h_seq (hrun ops))) =
+    Some (a_get c k (map_of c p ops)).
+  Proof.
+    intros W Wk Hok Hst Hs. rewrite (get_correct_bytes k _ Wk Hs st W). cbn [bapi]. f_equal.
+    rewrite <- (get_is_map c ok p ops k Hok). unfold store_get, History.res. rewrite Hst. reflexivity.
+  Qed.
+
+  Theorem history_correct_bytes st ops k s : wf_bstate st -> wf_bytes k ->
+    hops_ok c p h_init ops -> h_store (hrun ops) = all_entries (absS st) -> protected (hrun ops) s -> s <= keyMaxSeq p ->
+    bapi (db_get_bytes c p mp tp crc decompress fname ufc verify st k s) = Some (hist_get c p (hrun ops) k s).
+  Proof.
+    intros W Wk Hok Hst Hp Hs. rewrite (get_correct_bytes k s Wk Hs st W). cbn [bapi]. f_equal.
+    rewrite <- (history_correct c p ops Hok k s Hp). unfold store_get, History.res. rewrite Hst. reflexivity.
+  Qed.
 End Compose.
 
 (* ------------------------------------------------------------------ the filter setting is invisible *)
